@@ -981,7 +981,7 @@ def run(ctx):
     Ties.skipped = 0
     jobs = corpus_jobs()
     ctx.count('corpus', len(jobs))
-    jobs += gen_jobs(ctx, scale=1.0 if ctx.quick else 3.0)
+    jobs += gen_jobs(ctx, scale=1.0 if ctx.quick else 8.0)
     run_and_evaluate(ctx, jobs)
 
 
